@@ -357,9 +357,13 @@ class VLock:
         if self.owner is not None:
             if not blocking:
                 return False
-            ok = c.block(lambda: self.owner is None, None if timeout in (-1, None) else timeout, "lock")
-            if not ok:
-                return False
+            end = None if timeout in (-1, None) else c.clock + timeout
+            # re-test after every wake-up: another thread may have taken the lock before this one was scheduled
+            while self.owner is not None:
+                rem = None if end is None else end - c.clock
+                if rem is not None and rem <= 0:
+                    return False
+                c.block(lambda: self.owner is None, rem, "lock")
         self.owner = me
         return True
 
@@ -393,9 +397,12 @@ class VRLock:
         if self.owner is not None:
             if not blocking:
                 return False
-            ok = c.block(lambda: self.owner is None, None if timeout in (-1, None) else timeout, "rlock")
-            if not ok:
-                return False
+            end = None if timeout in (-1, None) else c.clock + timeout
+            while self.owner is not None:
+                rem = None if end is None else end - c.clock
+                if rem is not None and rem <= 0:
+                    return False
+                c.block(lambda: self.owner is None, rem, "rlock")
         self.owner, self.count = me, 1
         return True
 
